@@ -150,12 +150,16 @@ def opEncframe (f : Fields) (impl : Fields) (implHead : String) (profile : Profi
       | .ok pr =>
         let zeroRes (r : Residual) : Bool := r.parts.all (fun pt => match pt with | .zero _ => true | _ => false)
           && decide (r.parts.length ≤ Gen.encMaxPartitions)
-        let okSub (s : Subframe) : Bool := match s.body with
+        -- (a subframe that is small anyway - e.g. VERBATIM of a tiny block, or a channel of all-ones after 31 wasted bits -
+        --  satisfies the clause without the theorem)
+        let small (s : Subframe) (i : Nat) : Bool :=
+          decide ((writeSubframe (subBps pr.frame.hdr.assign pr.frame.hdr.bps i) s).length ≤ 8 + 33 + 4 * 33 + 6 + Gen.encMaxPartitions * 10)
+        let okSub (q : Subframe × Nat) : Bool := match q.1.body with
           | .constant _ => true
-          | .verbatim xs => decide (xs.length * pr.frame.hdr.bps ≤ 8 + 4 * 33 + 6 + Gen.encMaxPartitions * 10)
-          | .fixed _ _ r => zeroRes r
-          | .lpc _ _ _ _ _ r => zeroRes r
-        if pr.frame.subs.all okSub then "ok" else "FAIL constant-block-not-zero-partitioned"
+          | .verbatim _ => small q.1 q.2
+          | .fixed _ _ r => zeroRes r || small q.1 q.2
+          | .lpc _ _ _ _ _ r => zeroRes r || small q.1 q.2
+        if (List.zip pr.frame.subs (List.range pr.frame.subs.length)).all okSub then "ok" else "FAIL constant-block-subframe-grows-with-length"
     -- the crate-decoder model on the same bytes (ties Model/Decode to the spec on real output)
     let m := match decodeFrame profile none bytes with
       | .ok d => s!"ok dec={joinInts (interleave d.channels)}"
@@ -590,6 +594,14 @@ def runCase (line : String) : String :=
     opWr f implHead ++ opWrFinalize f impl ++ " @@ " ++ spec
   | _ => "model-skip @@ -"
 
+/-- the frame at the front of `bytes`, as the structural parser sees it, is in the canonical form the crate's writer emits:
+    minimal-length coded number, reserved bit clear, zero padding bits (the condition of C17's re-serialisation clause) -/
+def canonicalAsParsed (bytes : List Nat) : Bool :=
+  match parseFrame structLayout false none bytes with
+  | .ok p => p.frame.padding.all (fun b => !b) && !p.frame.hdr.reserved2
+      && p.frame.hdr.numberBytes == Flac.Gen2.minNumberBytes p.frame.hdr.number
+  | .error _ => false
+
 /-! ### generators -/
 
 open Flac.Gen2 in
@@ -603,7 +615,7 @@ def genValidCases (seed n : Nat) : List String := Id.run do
       let (m, r) := (genFrame true { rate := 44100, channels := 2, bps := 16, maxBlock := 65535 } false).run rng
       rng := r
       let bytes := Spec.serialize m.frame
-      out := s!"streamread bytes={bytesToHex bytes} exp={m.frame.hdr.rate}/{m.frame.hdr.assign.count}/{m.frame.hdr.bps}/{joinInts (interleave m.channels)} kind=valid nummin={if m.frame.hdr.numberBytes == minNumberBytes m.frame.hdr.number then 1 else 0}" :: out
+      out := s!"streamread bytes={bytesToHex bytes} exp={m.frame.hdr.rate}/{m.frame.hdr.assign.count}/{m.frame.hdr.bps}/{joinInts (interleave m.channels)} kind=valid nummin={if canonicalAsParsed bytes then 1 else 0}" :: out
     else
       -- a file with STREAMINFO and 1-3 frames that may refer to it
       let ((si, nf, known), r) := (do
@@ -655,7 +667,7 @@ def genInvalidCases (seed n : Nat) : List String := Id.run do
       match got with
       | none => pure ()
       | some (fr, cls, must) =>
-        out := s!"streamread bytes={bytesToHex (Spec.serialize fr)} class={cls} expect={if must then "reject" else "any"} kind=invalid nummin={if fr.hdr.numberBytes == minNumberBytes fr.hdr.number then 1 else 0}" :: out
+        out := s!"streamread bytes={bytesToHex (Spec.serialize fr)} class={cls} expect={if must then "reject" else "any"} kind=invalid nummin={if canonicalAsParsed (Spec.serialize fr) then 1 else 0}" :: out
     else
       let mut got2 : Option (SInfo × Frame × String × Bool) := none
       for _ in [0:8] do
